@@ -6,6 +6,7 @@ open FlexModel.Proto
 structure NetState where
   sts : List Station := []
   inside : List (Area × Addr) := []
+  down : List Addr := []
 
 def hexDigit (n : Nat) : Char := if n < 10 then Char.ofNat (48 + n) else Char.ofNat (87 + n)
 def hexOf (b : Bytes) : String :=
@@ -38,6 +39,14 @@ def transport? (t : String) (arg : Nat) : Option Transport :=
   | "shb" => some .shb | "gbc" => some (.gbc arg) | "gac" => some (.gac arg) | "guc" => some (.guc arg)
   | _ => none
 
+/-- canonical list of the handler invocations that happened between two network states -/
+def newsOf (before after : List Station) : String :=
+  let b := before.map (fun s => (s.addr, s.delivered.length))
+  let news := after.flatMap (fun s =>
+    let n := (b.lookup s.addr).getD 0
+    (s.delivered.drop n).map (fun d => s!"{s.addr}:{delivStr d}"))
+  if news = [] then "none" else " ".intercalate news
+
 def world (st : NetState) : World := { inside := fun a x => st.inside.contains (a, x) }
 
 def netStep (st : NetState) (t : List String) : NetState × String :=
@@ -61,13 +70,23 @@ def netStep (st : NetState) (t : List String) : NetState × String :=
       | some tp =>
         let r : Req := { btpB := btpB != 0, dport := dport, info := info, payload := pl, transport := tp,
                          hopLimit := hl, scfBlocked := blocked != 0 }
-        let before := st.sts.map (fun s => (s.addr, s.delivered.length))
-        let sts' := netRequest (world st) st.sts i r
-        let news := sts'.flatMap (fun s =>
-          let n := (before.lookup s.addr).getD 0
-          (s.delivered.drop n).map (fun d => s!"{s.addr}:{delivStr d}"))
-        ({ st with sts := sts' }, if news = [] then "none" else " ".intercalate news)
+        let sts' := netRequest (world st) st.down st.sts i r
+        ({ st with sts := sts' }, newsOf st.sts sts')
     | _, _, _, _, _, _, _, _ => (st, "bad-op")
+  | ["down", a] =>
+    match nat? a with
+    | some a => ({ st with down := a :: st.down }, "ok")
+    | none => (st, "bad-op")
+  | ["up", a] =>
+    match nat? a with
+    | some a => ({ st with down := st.down.filter (· ≠ a) }, "ok")
+    | none => (st, "bad-op")
+  | ["lsretx", i, de] =>
+    match nat? i, nat? de with
+    | some i, some de =>
+      let sts' := netRetransmit (world st) st.down st.sts i de
+      ({ st with sts := sts' }, newsOf st.sts sts')
+    | _, _ => (st, "bad-op")
   | _ => (st, "bad-op")
 
 def netDomain : Domain := { σ := NetState, init := {}, step := netStep }
